@@ -60,6 +60,28 @@ class C14(scen.PairProp):
             rows = rng.randint(4, 9)
             gap = 1.0
             r_mode = rng.random()
+            if r_mode < 0.12:
+                # the hold-up is the pull-off: a human leads and goes dA (run A) or dA + D (run B) seconds after
+                # Look To, the rest of the band keeps to the leader's line.  Everything Wheatley rings is D later.
+                origin = 1000.0
+                t0 = origin + 0.3 + rng.random()
+                hs = sorted(set([1] + rng.sample(range(2, N + 1), rng.randint(1, N - 2))))
+                I = scen.interval(ps, N)
+                dA = rng.uniform(1.0, 4.0)
+                D = rng.choice([0.5, 3.0, 8.0, 12.3, 25.7, 41.0]) * rng.uniform(0.9, 1.1)
+
+                def mk3(d):
+                    sc, _ = base_scenario(rng, N, hs, ps, origin, t0, rows)
+                    ev = []
+                    for r in range(rows):
+                        for b in hs:
+                            early = 0.0 if (r, b) == (0, 1) else 0.004
+                            ev.append([t0 + d + I * scen.blow_index(N, gap, r, b - 1) - early, "strike", b])
+                    sc["events"] = sc["events"] + ev
+                    sc["end"] = t0 + d + I * scen.blow_index(N, gap, rows, 0) + 1.0
+                    return sc
+                yield {"k": "pair", "scenarios": [mk3(dA), mk3(dA + D)], "mode": "pulloff", "D": D, "t0": t0, "I": I, "N": N}
+                continue
             if r_mode < 0.15:
                 # the band restarts while Wheatley is held up: a human stops ringing at (r0, p0), and
                 # Look To is called again D seconds into the hold-up (run B: D + extra).  Everything after
@@ -199,6 +221,14 @@ class C14(scen.PairProp):
                 if ba != bb or abs((tb - req["shift"]) - ta) > 5e-5:
                     return (f"clock origin moved by {req['shift']}: bell {ba} at offset {ta - req['t0']:.6f} became bell "
                             f"{bb} at {tb - req['shift'] - req['t0']:.6f}")
+            return None
+        if req["mode"] == "pulloff":
+            if len(A) < 3 or abs(len(A) - len(B)) > 1:
+                return f"pull-off {req['D']:.2f} s later: {len(A)} strikes became {len(B)}"
+            for (ta, ba, _), (tb, bb, _) in zip(A, B):
+                if ba != bb or abs((tb - ta) - req["D"]) > 0.0101:
+                    return (f"the leader pulled off {req['D']:.3f} s later: bell {ba} at {ta - req['t0']:.4f} s became bell "
+                            f"{bb} at {tb - req['t0']:.4f} s ({tb - ta:.4f} s later)")
             return None
         if req["mode"] == "restart":
             Ta, Tb = req["T2"]
